@@ -86,7 +86,12 @@ fn comment<const CM: bool>() -> (u8, Option<String>) {
 fn roa_delta<const HAVE: bool, const REM: bool, const ADDS: usize, const CM: bool>() {
     let held = any_v4();
     hold(held);
-    let resources = ResourceSet::default();   // not read: held_by is the stub above
+    // not read under the engine (held_by is the stub above); a native replay
+    // runs the real held_by and gets the real set
+    #[cfg(not(test))]
+    let resources = ResourceSet::default();
+    #[cfg(test)]
+    let resources: ResourceSet = TypedPrefix::V4(held).into();
     let e0 = any_payload_v4();
     let (e0_k, e0_comment) = comment::<CM>();
     let mut routes = Routes::default();
@@ -223,7 +228,10 @@ fn c05f_roa_delta_v6_add_refused() {
 fn c05f_roa_delta_empty_add() {
     let held = any_v4();
     hold(held);
+    #[cfg(not(test))]
     let resources = ResourceSet::default();
+    #[cfg(test)]
+    let resources: ResourceSet = TypedPrefix::V4(held).into();
     let routes = Routes::default();
     let a = any_payload_v4();
     let updates = RoaConfigurationUpdates { added: vec![RoaConfiguration { payload: a, comment: None }], removed: Vec::new() };
